@@ -60,7 +60,7 @@ func init() {
 				Min:  map[string]int64{"inputs": 30000, "rejected": 10000, "lengths_wrong_by_a_power_of_256": 3000}},
 			{Name: "huge-runs", N: big(24, 96), Run: c02Huge, CaseCPU: 60,
 				Rule: "inputs of 5..9 MiB that consist of one short instruction repeated millions of times (selector opcodes, 1-byte register writes, empty paths; one path holding a single run of millions of H/h/V/v or line operations): decoded into a counting Destination and by DecodeViewBox, the single runs also into an Encoder and a Renderer; depth of recursion, stack, memory and CPU time (the per-case limit of 60 CPU-seconds is about a hundred times what the unchanged tree needs) must not grow faster than the input",
-				Min:  map[string]int64{"huge_inputs": 16, "calls_delivered": 50_000_000, "huge_runs_of_one_drawing_operation": 6}},
+				Min:  map[string]int64{"huge_inputs": 16, "inputs_beyond_16_MiB": 1, "calls_delivered": 50_000_000, "huge_runs_of_one_drawing_operation": 6}},
 			{Name: "race-checkptr", N: big(0, 400_000), Run: c02Generated, Race: true, CaseCPU: 40,
 				Rule: "the generated family again under the -race build (which enables checkptr instrumentation)"},
 		},
@@ -550,10 +550,19 @@ func (d *countDest) AbsLineTo(x, y float32)                    { d.n++ }
 func c02Huge(c *run.Ctx, idx uint64) {
 	r := c.Rng(idx)
 	n := r.Range(5<<20, 9<<20)
+	kind := idx % 6
+	if kind < 4 && (r.Chance(1, 3) || idx == 2) {
+		// lengths on both sides of 2^24 and 2^25 bytes (styling traffic only, into a
+		// destination that counts: the Encoder and Renderer passes stay below 9 MiB)
+		n = r.Pick(r.Range(16<<20-4096, 16<<20+4096), r.Range(16<<20, 40<<20), r.Range(32<<20, 34<<20))
+		if idx == 2 {
+			n = r.Range(16<<20+1, 40<<20) // at every seed at least one input beyond 2^24 bytes
+		}
+		c.Count("inputs_beyond_16_MiB", 1)
+	}
 	b := make([]byte, 0, n+16)
 	b = append(b, "\x89IVG\x00"...)
 	var unit, prefix, suffix []byte
-	kind := idx % 6
 	switch kind {
 	case 4:
 		// one path that holds a single run of millions of one drawing operation
